@@ -2376,19 +2376,39 @@ class Exec:
             self.exec_block(s.finalbody)
 
     # ---- loops: cut at the invariant -------------------------------------------------
-    def loop_key(self):
+    def loop_key(self, node=None):
         if self.loop_counter[0] is None:
             # loop inside an inlined callee
             k = self.loop_counter[1]
             cnt = self.ghost.setdefault(("loopcnt", k), 0)
             self.ghost[("loopcnt", k)] = cnt + 1
             return f"{k}#{cnt}"
+        if node is not None:
+            # static key: the pre-order ordinal of the loop statement in the function under contract (the same on every path)
+            m = getattr(self, "_loop_ordinals", None)
+            if m is None:
+                m = {}
+                for nd in ast.walk(self.unit.node):
+                    pass
+                order = []
+
+                def visit(nd):
+                    for ch in ast.iter_child_nodes(nd):
+                        if isinstance(ch, (ast.For, ast.While)):
+                            order.append(ch)
+                        if not isinstance(ch, (ast.FunctionDef, ast.AsyncFunctionDef, ast.Lambda, ast.ClassDef)):
+                            visit(ch)
+                visit(self.unit.node)
+                m = {id(nd): k for k, nd in enumerate(order)}
+                self._loop_ordinals = m
+            if id(node) in m:
+                return m[id(node)]
         k = self.loop_counter[0]
         self.loop_counter[0] += 1
         return k
 
     def s_For(self, s):
-        key = self.loop_key()
+        key = self.loop_key(s)
         if s.orelse:
             raise OutsideSubset("for-else")
         it = s.iter
@@ -2445,7 +2465,7 @@ class Exec:
         raise OutsideSubset(f"for over {seqv}")
 
     def s_While(self, s):
-        key = self.loop_key()
+        key = self.loop_key(s)
         if self.contract.invariants.get(key) is None and not s.orelse:
             # a loop that provably runs zero times on this path needs no invariant (guard evaluated without forking)
             saved = self.spec_mode
